@@ -56,7 +56,17 @@ def extract_hdf5_datasets(filename, memmap=True):
             elif item.dtype.kind in ('V',):
                 arrays[full_path] = Table.read(item, format='hdf5')
 
-    file_handle.visititems(visitor)
+    def visit(group):
+        # Iterating over a group follows the creation order if the file kept
+        # track of it (and the alphabetical order otherwise), whereas
+        # visititems always goes by name
+        for key in group:
+            item = group[key]
+            visitor(item.name, item)
+            if isinstance(item, h5py.Group):
+                visit(item)
+
+    visit(file_handle)
     file_handle.close()
 
     # Now create memory-mapped arrays
